@@ -116,7 +116,15 @@ class ContinueParentStageHandler(StabilizeHandler[ContinueParentStage]):
                 stage.name,
                 stage.id,
             )
-            self.set_stage_status(stage, WorkflowStatus.TERMINAL)
+            # A child that an accepted cancel turned CANCELED is not a failed child: the
+            # parent is canceled with it (as determine_status() would say), not TERMINAL.
+            only_canceled = all(
+                s.status == WorkflowStatus.CANCELED for s in before_stages if s.status in HALT_STATUSES
+            )
+            failed_status = (
+                WorkflowStatus.CANCELED if (only_canceled and stage.execution.is_canceled) else WorkflowStatus.TERMINAL
+            )
+            self.set_stage_status(stage, failed_status)
             stage.end_time = self.current_time_millis()
             # Use atomic transaction to ensure state and message are committed together
             self.txn_helper.execute_atomic(
@@ -293,7 +301,15 @@ class ContinueParentStageHandler(StabilizeHandler[ContinueParentStage]):
                 stage.name,
                 stage.id,
             )
-            self.set_stage_status(stage, WorkflowStatus.TERMINAL)
+            # A child that an accepted cancel turned CANCELED is not a failed child: the
+            # parent is canceled with it (as determine_status() would say), not TERMINAL.
+            only_canceled = all(
+                s.status == WorkflowStatus.CANCELED for s in after_stages if s.status in HALT_STATUSES
+            )
+            failed_status = (
+                WorkflowStatus.CANCELED if (only_canceled and stage.execution.is_canceled) else WorkflowStatus.TERMINAL
+            )
+            self.set_stage_status(stage, failed_status)
             stage.end_time = self.current_time_millis()
             self.txn_helper.execute_atomic(
                 stage=stage,
